@@ -313,6 +313,31 @@ fn random_matrix(rng: &mut Rng) -> Matrix4<f32> {
             }
         }
     }
+    // structural special cases: some rows/columns exactly those of the
+    // identity (no translation, no shear, last entry exactly 1) while others
+    // are not - fast paths keyed on "looks affine / looks like the identity"
+    if rng.chance(0.3) {
+        if rng.chance(0.5) {
+            for i in 0..3 {
+                m[(i, 3)] = 0.0; // no translation
+            }
+        }
+        if rng.chance(0.5) {
+            m[(3, 3)] = 1.0;
+        }
+        if rng.chance(0.3) {
+            for i in 0..3 {
+                for j in 0..3 {
+                    m[(i, j)] = if i == j { 1.0 } else { 0.0 };
+                }
+            }
+        }
+        if rng.chance(0.3) {
+            for j in 0..3 {
+                m[(3, j)] = rng.uniform(-0.3, 0.3) as f32; // perspective row
+            }
+        }
+    }
     m
 }
 
